@@ -30,6 +30,7 @@ Ka == <<97>>  Kb == <<98>>  Kc == <<99>>  Kz == <<122>>
 ThrowPol == [mm |-> "throw", ov |-> "throw", arch |-> Arch, dev |-> ""]
 SkipPol  == [mm |-> "skip", ov |-> "skip", arch |-> Arch, dev |-> ""]
 MixPol   == [mm |-> "skip", ov |-> "throw", arch |-> Arch, dev |-> ""]
+MixPol2  == [mm |-> "throw", ov |-> "skip", arch |-> Arch, dev |-> ""]
 
 \* JSON: the "width" index selects a standard rendering (whitespace, escapes, member order) and an encoding
 JStyleSeq == << [ws |-> 0, esc |-> 0, order |-> 0, enc |-> "utf8", bom |-> FALSE],
@@ -207,7 +208,7 @@ TypedCorpus == (IF Arch = "msgpack" THEN ScalarCorpus ELSE IF Arch = "xml" THEN 
 InitTyped == /\ \E v \in (IF Mode = "numeric" THEN NumCorpus ELSE TypedCorpus),
                    T \in (IF TypedTargets # {} THEN TypedTargets ELSE IF Mode = "numeric" THEN NumTargets ELSE Targets) : \E r \in TypedRoots(T) : ("at" \in DOMAIN r => v[1] \notin {"arr", "map", "nil"}) /\ doc = Wrap(v, r) /\ root = r
              /\ w \in Widths
-             /\ pol \in {ThrowPol, SkipPol}
+             /\ pol \in (IF Mode = "numeric" THEN {ThrowPol, SkipPol, MixPol, MixPol2} ELSE {ThrowPol, SkipPol})   \* C04: the two policies are independent
              /\ aux = [cut |-> 0, ci |-> 0, cb |-> 0]
 
 \* damage: truncate the encoding by one more byte per step (cut = number of bytes removed), up to MaxOps bytes;
@@ -305,5 +306,8 @@ Export ==
   ELSE
      Detectable(doc, w) => PrintT(<<"GEN", ToJson([doc |-> EncDoc(doc), meta |-> DocMeta(w), root |-> root, pol |-> pol, cut |-> aux.cut,
                              exp |-> IF aux.ci # 0 THEN CorruptExpect ELSE IF aux.cut = 0 THEN Exec(DocFor(doc, w), root, pol) ELSE DamageExpect,
-                             expdev |-> DevExpected])>>)
+                             expdev |-> DevExpected,
+                             \* the text of the first member: the same text in a CSV cell denotes the same value (C04, CSV cell position)
+                             celltext |-> IF Mode = "numeric" /\ Arch = "xml" /\ root.k = "obj" /\ "at" \notin DOMAIN root /\ doc[2][1][2][1] \notin {"arr", "map"}
+                                          THEN XmlText(doc[2][1][2]) ELSE <<>>])>>)
 =============================================================================
